@@ -29,8 +29,8 @@ def run(ctx):
         raise Inconclusive("only %d probe scripts" % len(scripts))
     rng = random.Random(ctx.seed * 40692 + 3)
     rng.shuffle(scripts)
-    nbridges = 12 if quick else 60
-    per = 14 if quick else 40
+    nbridges = 12 if quick else 200
+    per = 14 if quick else 50
     scen = []
     k = 0
     for bi in range(nbridges):
